@@ -2,26 +2,13 @@ package harness
 
 import "verifsim/simrt"
 
-type handle struct{}
 type multiState struct{}
 
-func (e *Exec) snapOpen(op Op)                {}
-func (e *Exec) snapVerify(i int)              {}
-func (e *Exec) snapClose(i int)               {}
-func (e *Exec) iterProg(op Op)                {}
-func (e *Exec) doPrevious(op Op)              {}
-func (e *Exec) doRevert(op Op)                {}
 func (e *Exec) catchUp()                      {}
 func (e *Exec) readOnlyOps(op Op)             {}
 func (e *Exec) postCloseCalls()               {}
 func (e *Exec) runMulti()                     {}
-func (e *Exec) checkGauges()                  {}
-func (e *Exec) checkCompactionShape()         {}
-func (e *Exec) recordRound()                  {}
 func (e *Exec) checkDurableNow(j int)         {}
-func (e *Exec) closeAllHandlesIf(all bool)    {}
-func (e *Exec) closeHandlesRandomOrder()      {}
-func (e *Exec) checkLeaks()                   {}
 
 func genMulti(c *Case, r *simrt.Rand, tier string)    { genSingle(c, r, propCfg("C01")) }
 func genCrash(c *Case, r *simrt.Rand, tier string)    { genSingle(c, r, propCfg("C04")) }
